@@ -44,6 +44,7 @@ def setup_repo_path():
             def _na(*a, **k):
                 raise RuntimeError('sksparse.cholmod is not available in this sandbox (import stub of the checker)')
             c.cholesky = _na
+            c.analyze = _na
             c.CholmodError = RuntimeError
             c.CholmodNotPositiveDefiniteError = RuntimeError
             m.cholmod = c
@@ -260,16 +261,21 @@ def load_known():
     if os.path.exists(path):
         for line in open(path):
             line = line.strip()
-            if line and not line.startswith('#'):
+            if line.startswith('{'):
                 out.append(json.loads(line))
     return out
+
+
+def _noshard(q):
+    import re
+    return re.sub(r'\[shard \d+/\d+\]', '', q or '')
 
 
 def match_known(known, prop, rec):
     for k in known:
         if k.get('property') != prop or k.get('status') != 'open':
             continue
-        if k.get('query') != rec['query']:
+        if _noshard(k.get('query')) != _noshard(rec['query']):
             continue
         cls = k.get('input_class')
         if cls:
@@ -353,8 +359,13 @@ def finish(prop, tier, seed, obs, results, wall, level_text=None):
     for r in violated:
         k = match_known(known, prop, r)
         (known_hits if k else new_viol).append((r, k))
+    seen_k = set()
     for r, k in known_hits:
-        print('KNOWN-FINDING: property=%s %s :: %s' % (prop, r['query'], k.get('what', '')))
+        kk = _noshard(r['query'])
+        if kk in seen_k:
+            continue
+        seen_k.add(kk)
+        print('KNOWN-FINDING: property=%s %s :: %s' % (prop, kk, k.get('what', '')))
     for r, _ in new_viol:
         print('VIOLATION property=%s replay=%s' % (prop, r.get('replay')))
         print('  query=%s witness=%s model=%s' % (r['query'], r.get('witness'), json.dumps(r.get('model'), default=str)[:600]))
